@@ -221,6 +221,18 @@ def judge_range(ctx, start, stop, step, size, via):
 
     try:
         r1 = call()
+        if via in ("time", "time_sr", "freq", "time_both"):
+            # the wrappers promise the same axis as the general constructor, for the bounds THEY were given (the
+            # ambient monitor only sees what they pass on)
+            ctx.mon("range.wrapper_bounds")
+            co = np.asarray(r1.data)
+            if len(co) and (co[0] != start or not co[-1] < stop):
+                ctx.violate("range:inside", f"range:wrapper_bounds:{via}", observed=[float(co[0]), float(co[-1])], expected=[float(start), float(stop)], spec=spec)
+            if via == "time_sr":
+                ref = np.asarray(D.create_time_range(start, stop, step=step).data)
+                if len(ref) != len(co) or not np.array_equal(ref, co):
+                    ctx.violate("range:lattice", "range:samplerate_form_differs_from_step_form", observed={"n": len(co), "first": float(co[0]) if len(co) else None},
+                                expected={"n": len(ref), "first": float(ref[0]) if len(ref) else None}, spec=spec)
         if ctx.every(spec, 3) and scribble.scribble(r1):
             # the caller shifts / overwrites the coordinate it was given (``time += clip_start``), then asks for the
             # same range again: the second answer is judged by the same monitor
@@ -309,7 +321,7 @@ def judge_set(ctx, shape, which, vals, value_kind, seed):
         ctx.violate_exc("set:raises", f"set:raises:{type(e).__name__}", e, spec=spec)
 
 
-STARTS = [0.0, 0.5, 3.0, 1000.0, -1.5]
+STARTS = [0.0, 0.5, 3.0, 1000.0, -1.5, 0.123, 212.275]      # the last two are not multiples of any step below (axis phase)
 STEPS = [1.0, 0.5, 0.1, 0.01, 1 / 3, 1 / 44100, 7.3, 0.25, 1 / 22050, 1 / 48000, 0.003]
 
 
@@ -355,9 +367,9 @@ def run(ctx):
                 if ctx.thorough and rng.random() < 0.5:
                     continue
                 stop = start + n * step
-                via = rng.choice(["range", "time", "freq"])
+                via = rng.choice(["range", "time", "freq", "time_sr"])
                 ctx.case(("range", via, "long_far_from_zero"), {"kind": "range", "start": start, "stop": stop, "step": step, "size": None, "via": via}, nontrivial=True)
-                judge_range(ctx, start, stop, step, None, via)
+                judge_range(ctx, start, stop, step if via != "time_sr" else 1 / round(1 / step), None, via)
     for _ in range(ctx.scale(300, 1500)):
         start = rng.choice(STARTS + [rng.uniform(0, 100)])
         size = rng.choice([1, 2, 3, 10, 127, 128, 1000, rng.randint(1, 3000)])
